@@ -111,7 +111,7 @@ class ParConsSuite(Suite):
 
 
 if __name__ == "__main__":
-    main("C06", [ParConsSuite()],
+    main("C06", [ParConsSuite()], gen_targets=['graph', 'step6'],
          level_note="the ILP solver (CBC through PuLP) and igraph's SCC routine are outside the model: their answers are judged per run "
                     "against the verified brute-force optimum (universes <= 6) and the verified no-back-arc test",
          rule="one F2 witness; sparse-component datasets (a component of 3-4 conflicting elements and 2-4 rankings ranking none of them, "
